@@ -19,7 +19,7 @@ for f in glob.glob('/verif/logs/**/*.out', recursive=True) + glob.glob('/root/.v
 hs = vk.discover()
 props = sorted(set(p for h in hs for p in h.props))
 for p in props:
-    q = [h for h in hs if p in h.props and h.prop_tier.get(p, h.tier) == 'quick']
+    q = [h for h in hs if p in h.props and vk.eff_tier(h, p) == 'quick']
     times = []
     rows = []
     for h in q:
